@@ -94,6 +94,19 @@ def multipart_scripts(ctx, rng):
     for o in orders:
         segs = rng.sample(SMALL, len(o))
         out.append(mp_exec("b1", rng.choice(["mp", "ab", "a/b"]), list(zip(o, segs))))
+    # part numbers of every width: the stored part files are named %04d.part, so the name order of 7, 10, 100,
+    # 1000, 1001..9999 and 10000 differs from the numeric order in many ways; 4-6 parts in a seeded random
+    # upload order, half of the executions with the top number 10000
+    wide = [1, 7, 9, 10, 11, 99, 100, 101, 999, 1000, 1001, 1002, 2000, 3000, 5000, 9998, 9999]
+    for i in range(60 if ctx.thorough else 14):
+        nums = rng.sample(wide, rng.randint(3, 5))
+        if i % 2 == 0:
+            nums += [10000] + rng.sample([n for n in wide if n > 1000 and n not in nums], 2)
+        nums = list(dict.fromkeys(nums))
+        rng.shuffle(nums)
+        perm = rng.sample(SMALL, len(SMALL))          # neighbouring parts (in any order) carry different contents
+        bynum = {n: perm[j % len(perm)] for j, n in enumerate(sorted(nums))}
+        out.append(mp_exec("b1", rng.choice(["mp", "ab", "a/b"]), [(n, bynum[n]) for n in nums]))
     # parts around the chunk size (1 MB), some streaming-signed
     bigs = [[(1, "m1"), (2, "s5")], [(2, "m1p"), (1, "b22"), (3, "s5")], [(10000, "n1"), (9999, "m1")],
             [(1, "s5"), (2, "b22")], [(3, "m1"), (1, "m1"), (2, "k3")]]
